@@ -139,6 +139,7 @@ func c20(r *core.Report) {
 	}
 	c20Wrapper(r)
 	c20Inv(r)
+	c20TypedNil(r)
 	crashPanic(r, csAll, map[string]panicExcuse{
 		"openapi3.readableType": {
 			reason: "the default case is unreachable: every value that flows into readableType (directly, or through the `resolved` parameter of resolveComponent) has one of the static types listed in its type switch",
@@ -1077,4 +1078,154 @@ func cyclicModelTypes(p *core.Prog) func(t types.Type) bool {
 		}
 		return false
 	}
+}
+
+// c20TypedNil: a value read through reflection is nil-tested with reflection.
+func c20TypedNil(r *core.Report) {
+	p := r.Prog
+	pk := p.Pkg("openapi3")
+	info := pk.TypesInfo
+	r.RunRule("C20.typednil", "a value obtained by reflection is not nil-tested with `== nil` alone: in package openapi3, wherever a variable that holds the result of a function returning reflect.Value.Interface() (the fragment drill-down: a struct field, map element or slice element of arbitrary decoded data) is compared with nil, the same condition also tests reflect.ValueOf(x).IsNil() — a nil pointer field comes back as a non-nil interface holding a nil pointer, passes `== nil`, and the next method call or Elem() on it panics", 1, func() {
+		// functions whose result may be a reflect.Value.Interface()
+		reflective := map[*types.Func]bool{}
+		reflIdx := map[*types.Func]map[int]bool{}
+		decls := map[*types.Func]*ast.FuncDecl{}
+		for _, d := range p.AllDecls("openapi3") {
+			o, _ := info.Defs[d.Name].(*types.Func)
+			if o == nil {
+				continue
+			}
+			decls[o] = d
+			forEachReturnStmt(d.Body, func(ret *ast.ReturnStmt) {
+				for ri, e := range ret.Results {
+					ast.Inspect(e, func(n ast.Node) bool {
+						if c, ok := n.(*ast.CallExpr); ok {
+							if callee := core.CalleeOf(info, c); callee != nil && callee.Name() == "Interface" && callee.Pkg() != nil && callee.Pkg().Path() == "reflect" {
+								reflective[o] = true
+								if reflIdx[o] == nil {
+									reflIdx[o] = map[int]bool{}
+								}
+								reflIdx[o][ri] = true
+							}
+						}
+						return true
+					})
+				}
+			})
+		}
+		if len(reflective) == 0 {
+			core.Fail("no function returning reflect.Value.Interface() found (drillIntoField expected)")
+		}
+		n := 0
+		for _, d := range p.AllDecls("openapi3") {
+			ff := core.NewFuncFacts(p, info, d)
+			perFn := 0
+			ast.Inspect(d.Body, func(nd ast.Node) bool {
+				be, ok := nd.(*ast.BinaryExpr)
+				if !ok || (be.Op != token.EQL && be.Op != token.NEQ) || !core.IsNil(info, be.Y) {
+					return true
+				}
+				id, ok := ast.Unparen(be.X).(*ast.Ident)
+				if !ok {
+					return true
+				}
+				o := info.ObjectOf(id)
+				if o == nil {
+					return true
+				}
+				if _, isIface := o.Type().Underlying().(*types.Interface); !isIface {
+					return true
+				}
+				// assigned from a reflective function?
+				from := false
+				if isErrorType(o.Type()) {
+					return true
+				}
+				for _, a := range ff.Assigns(o) {
+					if a.Call != nil {
+						if callee := core.CalleeOf(info, a.Call); callee != nil && reflective[callee] && reflIdx[callee][a.Idx] {
+							from = true
+						}
+					}
+					if a.Rhs != nil {
+						if c, ok := ast.Unparen(a.Rhs).(*ast.CallExpr); ok {
+							if callee := core.CalleeOf(info, c); callee != nil && reflective[callee] {
+								from = true
+							}
+						}
+					}
+				}
+				if !from {
+					return true
+				}
+				n++
+				perFn++
+				key := fmt.Sprintf("typednil:%s/%s#%d", core.FuncName(d), id.Name, perFn)
+				// the enclosing condition (if / && / || chain) mentions IsNil on reflect.ValueOf(x)
+				var cond ast.Expr = be
+				path := core.PathTo(d.Body, be)
+				for i := len(path) - 2; i >= 0; i-- {
+					if e, ok := path[i].(ast.Expr); ok {
+						cond = e
+						continue
+					}
+					if ifs, ok := path[i].(*ast.IfStmt); ok {
+						// include the init statement: `if v := reflect.ValueOf(x); x == nil || v.IsNil()`
+						okR := reflectNilTested(info, ifs.Cond, ifs.Init, o)
+						r.Check(okR, key, p.Pos(be.Pos()), "also tested with reflect IsNil", fmt.Sprintf("%s compares the reflective result %s with nil only: a nil pointer inside the interface passes the test and is dereferenced afterwards", core.FuncName(d), id.Name))
+						return true
+					}
+					break
+				}
+				okR := reflectNilTested(info, cond, nil, o)
+				r.Check(okR, key, p.Pos(be.Pos()), "also tested with reflect IsNil", fmt.Sprintf("%s compares the reflective result %s with nil only: a nil pointer inside the interface passes the test and is dereferenced afterwards", core.FuncName(d), id.Name))
+				return true
+			})
+		}
+		if n == 0 {
+			core.Fail("no nil comparison of a reflective result found (resolveComponent's drill expected)")
+		}
+	})
+}
+
+// reflectNilTested: cond calls IsNil on a reflect.Value built from variable o (directly, or through
+// a variable defined in init as reflect.ValueOf(o)).
+func reflectNilTested(info *types.Info, cond ast.Expr, init ast.Stmt, o types.Object) bool {
+	valueVars := map[types.Object]bool{}
+	isValueOfO := func(e ast.Expr) bool {
+		c, ok := ast.Unparen(e).(*ast.CallExpr)
+		if !ok || len(c.Args) != 1 {
+			return false
+		}
+		callee := core.CalleeOf(info, c)
+		if callee == nil || callee.Name() != "ValueOf" || callee.Pkg() == nil || callee.Pkg().Path() != "reflect" {
+			return false
+		}
+		id, ok := ast.Unparen(c.Args[0]).(*ast.Ident)
+		return ok && info.ObjectOf(id) == o
+	}
+	if as, ok := init.(*ast.AssignStmt); ok && len(as.Lhs) == 1 && len(as.Rhs) == 1 && isValueOfO(as.Rhs[0]) {
+		if id, ok := as.Lhs[0].(*ast.Ident); ok {
+			valueVars[info.ObjectOf(id)] = true
+		}
+	}
+	found := false
+	ast.Inspect(cond, func(n ast.Node) bool {
+		c, ok := n.(*ast.CallExpr)
+		if !ok {
+			return true
+		}
+		sel, ok := c.Fun.(*ast.SelectorExpr)
+		if !ok || sel.Sel.Name != "IsNil" {
+			return true
+		}
+		if isValueOfO(sel.X) {
+			found = true
+		}
+		if id, ok := ast.Unparen(sel.X).(*ast.Ident); ok && valueVars[info.ObjectOf(id)] {
+			found = true
+		}
+		return true
+	})
+	return found
 }
